@@ -674,7 +674,10 @@ impl<'p, 's, M: Matcher, W: WriteColor> Sink for SummarySink<'p, 's, M, W> {
             )?;
             count
         };
-        if is_multi_line {
+        // In an inverted search, the lines given here are precisely the
+        // lines that do not contain a match, so there is nothing to count
+        // inside of them: each call reports one (non-)matching line.
+        if is_multi_line && !searcher.invert_match() {
             self.match_count += sink_match_count;
         } else {
             self.match_count += 1;
